@@ -80,6 +80,9 @@ type fake struct {
 	perms    []string
 	g        *group.Group
 	kicked   atomic.Bool
+	view     map[string]bool // users this client believes are in its group (from add / delete events)
+	dupAdd   int
+	badDel   int
 }
 
 func (c *fake) Group() *group.Group { c.mu.Lock(); defer c.mu.Unlock(); return c.g }
@@ -106,6 +109,23 @@ func (c *fake) Joined(g, kind string) error {
 	return nil
 }
 func (c *fake) PushClient(g, kind, id, username string, perms []string, data map[string]interface{}) error {
+	c.mu.Lock()
+	if c.view == nil {
+		c.view = map[string]bool{}
+	}
+	switch kind {
+	case "add":
+		if c.view[id] {
+			c.dupAdd++
+		}
+		c.view[id] = true
+	case "delete":
+		if !c.view[id] {
+			c.badDel++
+		}
+		delete(c.view, id)
+	}
+	c.mu.Unlock()
 	if (kind == "add" || kind == "delete") && g == *groupName.Load() {
 		emit(map[string]any{"ev": "announce", "to": c.id, "kind": kind, "id": id})
 	}
@@ -239,6 +259,9 @@ func leave(c *fake) {
 	group.DelClient(c)
 	c.setGroup(nil)
 	c.kicked.Store(false)
+	c.mu.Lock()
+	c.view = nil
+	c.mu.Unlock()
 }
 
 func members(name string) []string {
@@ -489,8 +512,55 @@ func runConc(tr *vt.Trace, r *rand.Rand, round int) {
 	wg.Wait()
 	close(stop)
 	rg.Wait()
+	// C14: a last wave of simultaneous joins and departures (capacity lifted), then, at quiescence, every
+	// remaining member's view -- built from the add / delete events it was sent -- must be the membership
+	writeGroup(name, cfgT{Window: "open"}, 77)
+	emit(map[string]any{"ev": "edit", "cfg": cfgJSON(cfgT{Window: "open"})})
+	group.Add(name, nil)
+	stay := []*fake{}
+	var w2 sync.WaitGroup
+	var smu sync.Mutex
+	for u := 0; u < 9; u++ {
+		w2.Add(1)
+		go func(u int) {
+			defer w2.Done()
+			cl := &fake{id: fmt.Sprintf("v%d", u+1)}
+			if join(name, cl) == nil {
+				if u%3 == 2 {
+					// comes back as a new client (the property is about clients with distinct ids)
+					leave(cl)
+					cl = &fake{id: fmt.Sprintf("v%db", u+1)}
+					if join(name, cl) != nil {
+						return
+					}
+				}
+				smu.Lock()
+				stay = append(stay, cl)
+				smu.Unlock()
+			}
+		}(u)
+	}
+	w2.Wait()
 	yieldOn.Store(false)
-	emit(map[string]any{"ev": "members", "m": members(name)})
+	ms := members(name)
+	wrong := []string{}
+	for _, cl := range stay {
+		cl.mu.Lock()
+		v := []string{}
+		for id := range cl.view {
+			v = append(v, id)
+		}
+		sort.Strings(v)
+		if strings.Join(v, ",") != strings.Join(ms, ",") || cl.dupAdd > 0 || cl.badDel > 0 {
+			wrong = append(wrong, fmt.Sprintf("%s sees [%s] dupAdd=%d badDel=%d", cl.id, strings.Join(v, ","), cl.dupAdd, cl.badDel))
+		}
+		cl.mu.Unlock()
+	}
+	emit(map[string]any{"ev": "views", "members": ms, "wrong": wrong})
+	emit(map[string]any{"ev": "members", "m": ms})
+	for _, cl := range stay {
+		leave(cl)
+	}
 	flush(tr)
 }
 
